@@ -106,8 +106,8 @@ Fixpoint p_columns (x : xtable) (b : bytes) (first : bool) (cs : list column) : 
                 end
   end.
 
-(** addTable: the CREATE TABLE command *)
-Definition print_table (x : xtable) : option bytes :=
+(** addTable, up to and including the foreign keys: the buffer before the CHECK constraints *)
+Definition print_body (x : xtable) : option bytes :=
   let t := x_t x in
   let b0 := bIdent (bP [] [W_CREATE_TABLE]) (t_name t) ++ [ch_lp] in
   match p_columns x b0 true (t_cols t) with
@@ -117,14 +117,20 @@ Definition print_table (x : xtable) : option bytes :=
                 | Some pk => if autoincPK x pk then b1 else p_parts (bP (bComma b1) [W_PRIMARY_KEY]) (i_parts pk)
                 | None => b1
                 end in
-      let b3 := match t_fks t with
-                | [] => b2
-                | fks => bMapComma (bComma b2) true fks p_fk
-                end in
-      let b4 := fold_left (fun b k => p_check (bComma b) k) (t_checks t) b3 in
-      let b5 := bClose b4 in
-      let opts := (if t_without_rowid t then [W_WITHOUT_ROWID] else []) ++ (if t_strict t then [W_STRICT] else []) in
-      Some (bString (bMapComma b5 true opts (fun b o => bP b [o])))
+      Some (match t_fks t with
+            | [] => b2
+            | fks => bMapComma (bComma b2) true fks p_fk
+            end)
+  end.
+Definition table_opts (t : table) : list bytes :=
+  (if t_without_rowid t then [W_WITHOUT_ROWID] else []) ++ (if t_strict t then [W_STRICT] else []).
+(** addTable: the CREATE TABLE command *)
+Definition print_table (x : xtable) : option bytes :=
+  match print_body x with
+  | None => None
+  | Some b3 =>
+      let b4 := fold_left (fun b k => p_check (bComma b) k) (t_checks (x_t x)) b3 in
+      Some (bString (bMapComma (bClose b4) true (table_opts (x_t x)) (fun b o => bP b [o])))
   end.
 
 (** addIndexes: one CREATE INDEX command (after normalizeIdxName) *)
